@@ -70,7 +70,11 @@ namespace RecInt
         rmint(const rmint<K, MGI>& c) : Value(c.Value) { reduction(*this); }
         rmint(const rmint<K, MGA>& c) : Value(get_ruint(c)) { reduction(*this); }
         template <typename T, __RECINT_IS_UNSIGNED(T, int) = 0> rmint(const T b) : Value(b) { mod_n(Value, p); }
-        template <typename T, __RECINT_IS_SIGNED(T, int) = 0>   rmint(const T b) : Value((b < 0)? -b : b)
+        template <typename T, typename std::enable_if<std::is_signed<T>::value && std::is_integral<T>::value, int>::type = 0>
+        rmint(const T b) : Value(b) // |b| is taken on the ruint: -b overflows in T for the most negative value
+        { if (b < 0) Value = -Value; mod_n(Value, p); if (b < 0) neg(*this); }
+        template <typename T, typename std::enable_if<std::is_floating_point<T>::value, int>::type = 0>
+        rmint(const T b) : Value((b < 0)? -b : b)
         { mod_n(Value, p); if (b < 0) neg(*this); }
         rmint(const double& b) : Value((b < 0)? -b : b)
         { mod_n(Value, p); if (b < 0) neg(*this); }
